@@ -1,14 +1,22 @@
 //! C20 — the response cache policy is never looser than the data it contains.
 //!
 //! Case:   (case TAG SCHEMA HINTS (req DOC OPNAME VARS TEXT) …)
-//!   TAG     schema variant ("v0".."v3"): the same type graph with different cache hints
+//!   TAG     schema variant: "v0".."v3" = the same type graph with different cache hints;
+//!           "zoo" = one schema using every way of DECLARING a hint (see `mod zoo`)
 //!   SCHEMA  description of that schema read back from the real registry (SDL export)
-//!   HINTS   (hint TYPE FIELD|none PUBLIC MAXAGE)… — cache hints are not part of SDL; the table
-//!           is produced by the same macro invocation that writes the derive attributes
+//!   HINTS   (hint TYPE FIELD|none PUBLIC MAXAGE)… — what the harness SOURCE declares, never read
+//!           from the registry: v0..v3 from the literals of the macro invocation that also writes
+//!           the derive attributes, zoo from the hand-written table `zoo::DECLARED` next to the
+//!           declarations;  (partsonly TYPE PUBLIC MAXAGE)… — for a `#[derive(MergedObject)]` that
+//!           carries a hint of its own: the combination of the hints of its parts alone
 //!   req     one request of the batch (1 request = `BatchRequest::Single`)
-//! Output: (out (cc PUBLIC MAXAGE HEADER|none)… (batch PUBLIC MAXAGE HEADER|none))
+//! Output: (out (cc PUBLIC MAXAGE HEADER|none)… (batch PUBLIC MAXAGE HEADER|none)
+//!              (stream PUBLIC MAXAGE HEADER|none) (reg (hint TYPE FIELD|none PUBLIC MAXAGE)…))
 //!   one `cc` per response (`Response.cache_control`, or `(rejected)` if the request was refused),
-//!   `batch` = `BatchResponse::cache_control()`.
+//!   `batch` = `BatchResponse::cache_control()`, `stream` = the policy of the first response of
+//!   `Schema::execute_stream` for the first request, `reg` = every non-default hint the derive
+//!   macros REGISTERED (Registry built by `create_type_info` of the roots; object and interface
+//!   types, their fields), in the order of the declared table, unknown entries last.
 
 #![allow(dead_code)]
 
@@ -16,16 +24,57 @@
 mod family;
 
 use agvh::*;
-use async_graphql::{BatchRequest, BatchResponse, CacheControl, EmptyMutation, EmptySubscription, Interface, Object, Schema, Union};
-use family::{DocN, GV, SchemaD, SelN, gen_request, print_doc, vars_from_sexp, vars_sexp};
+use async_graphql::registry::{MetaType, Registry};
+use async_graphql::{BatchRequest, BatchResponse, CacheControl, EmptyMutation, EmptySubscription, Interface, Object, OutputType, Schema, Union};
+use futures_util::StreamExt;
+use family::{DocN, GV, SchemaD, SelN, gen_request_b, print_doc, vars_from_sexp, vars_sexp};
 
 /// (type, field or "", public, max_age as stored in the registry)
 type HintRow = (&'static str, &'static str, bool, i32);
 
 trait Variant {
     fn sdl(&self) -> String;
+    /// the hints DECLARED in this file
     fn hints(&self) -> Vec<HintRow>;
+    /// merged objects with a hint of their own: (type, public, max_age) of their parts alone
+    fn parts_only(&self) -> Vec<(&'static str, bool, i32)> {
+        vec![]
+    }
+    /// the non-default hints the derive macros registered: (type, field or "", public, max_age)
+    fn registered(&self) -> Vec<(String, String, bool, i32)>;
     fn exec(&self, b: BatchRequest) -> BatchResponse;
+    /// first response of `Schema::execute_stream`
+    fn exec_stream(&self, r: async_graphql::Request) -> Option<async_graphql::Response>;
+}
+
+/// every non-default hint in the registry the derive-generated `create_type_info` of the roots builds
+fn registry_hints<Q: OutputType, M: OutputType>() -> Vec<(String, String, bool, i32)> {
+    let mut reg = Registry::default();
+    Q::create_type_info(&mut reg);
+    M::create_type_info(&mut reg);
+    let dflt = CacheControl::default();
+    let mut out = vec![];
+    for (name, t) in &reg.types {
+        if name.starts_with("__") {
+            continue;
+        }
+        let fields = match t {
+            MetaType::Object { fields, cache_control, .. } => {
+                if *cache_control != dflt {
+                    out.push((name.clone(), String::new(), cache_control.public, cache_control.max_age));
+                }
+                fields
+            }
+            MetaType::Interface { fields, .. } => fields,
+            _ => continue,
+        };
+        for (fname, f) in fields {
+            if f.cache_control != dflt {
+                out.push((name.clone(), fname.clone(), f.cache_control.public, f.cache_control.max_age));
+            }
+        }
+    }
+    out
 }
 
 /// One schema variant.  Every `(max_age, private, no_cache)` triple is written once and goes both
@@ -115,6 +164,11 @@ macro_rules! variant {
             impl Variant for V {
                 fn sdl(&self) -> String { self.0.sdl() }
                 fn exec(&self, b: BatchRequest) -> BatchResponse { spin_on(self.0.execute_batch(b)) }
+                fn exec_stream(&self, r: async_graphql::Request) -> Option<async_graphql::Response> {
+                    let mut s = self.0.execute_stream(r);
+                    spin_on(s.next())
+                }
+                fn registered(&self) -> Vec<(String, String, bool, i32)> { registry_hints::<Query, EmptyMutation>() }
                 fn hints(&self) -> Vec<HintRow> {
                     vec![
                         row("Query", "", $qm, $qp, $qn), row("A", "", $am, $ap, $an),
@@ -162,7 +216,260 @@ variant!(v3;
     B.x = (13, false, false), B.z = (0, false, false),
     C.y = (0, false, false), C.w = (0, false, false));
 
-const TAGS: [&str; 4] = ["v0", "v1", "v2", "v3"];
+/// The declaration zoo: one schema in which a cache hint is declared in every way the derive
+/// macros offer.  `DECLARED` below is written BY HAND from the attributes in this module (the
+/// registry is never consulted for it): the expected hint of every type and field.
+///
+///   `#[Object(cache_control(..))]` + method hints            Oa, P1, Query, Mutation (mutation root)
+///   `#[derive(SimpleObject)]` + field hints                  So, P2, P3
+///   SimpleObject + `#[ComplexObject]`, hints on both halves  Sc
+///   generic SimpleObject, two concrete instantiations each   Gs<T> = GsOa / GsInt, Lv<T> = LvInt / LvSo
+///   generic `#[Object]`, two concrete instantiations         Go<T> = GoInt / GoSo
+///   `#[derive(MergedObject)]` of hinted parts                Mo (own hint private), Mp (no own hint),
+///                                                            Mq (own max_age below its parts')
+///   `#[derive(Interface)]` over hinted SimpleObjects         Zi = {So, Sc}, Zj = {GsOa, GsInt}
+///   `#[derive(Union)]` over hinted types                     Zu = {Oa, Sc, GoInt}, Zv = {GsInt, Mo, LvInt, GoSo}
+/// `#[Subscription]` takes no cache_control attribute and the dynamic schema API has no cache
+/// hints at all (every `cache_control:` in src/dynamic is `Default::default()`), so neither has
+/// a declaration to compare.
+mod zoo {
+    use super::*;
+    use async_graphql::{ComplexObject, MergedObject, SimpleObject};
+
+    pub struct Oa;
+    #[Object(cache_control(max_age = 50))]
+    impl Oa {
+        #[graphql(cache_control(max_age = 7))]
+        async fn x(&self) -> i64 { 1 }
+        #[graphql(cache_control(private))]
+        async fn p(&self) -> i64 { 2 }
+        async fn n(&self) -> i64 { 3 }
+        async fn so(&self) -> So { so() }
+        #[graphql(cache_control(max_age = 45))]
+        async fn zus(&self) -> Vec<Zu> { vec![Zu::Sc(sc()), Zu::GoInt(Go(4))] }
+    }
+
+    #[derive(SimpleObject)]
+    #[graphql(cache_control(max_age = 40))]
+    pub struct So {
+        #[graphql(cache_control(max_age = 12))]
+        x: i64,
+        #[graphql(cache_control(no_cache))]
+        live: i64,
+        y: Option<String>,
+    }
+    fn so() -> So { So { x: 10, live: 11, y: None } }
+
+    #[derive(SimpleObject)]
+    #[graphql(complex, cache_control(max_age = 35))]
+    pub struct Sc {
+        #[graphql(cache_control(max_age = 9))]
+        x: i64,
+        w: i64,
+    }
+    #[ComplexObject]
+    impl Sc {
+        #[graphql(cache_control(private, max_age = 4))]
+        async fn c(&self) -> i64 { 5 }
+        async fn oa(&self) -> Oa { Oa }
+        #[graphql(cache_control(max_age = 3))]
+        async fn zi(&self) -> Zi { Zi::So(so()) }
+    }
+    fn sc() -> Sc { Sc { x: 20, w: 21 } }
+
+    #[derive(SimpleObject)]
+    #[graphql(concrete(name = "GsOa", params(Oa)), concrete(name = "GsInt", params(i64)), cache_control(private, max_age = 20))]
+    pub struct Gs<T: OutputType> {
+        #[graphql(cache_control(max_age = 5))]
+        item: T,
+        x: i64,
+    }
+
+    #[derive(SimpleObject)]
+    #[graphql(concrete(name = "LvInt", params(i64)), concrete(name = "LvSo", params(So)), cache_control(no_cache))]
+    pub struct Lv<T: OutputType> {
+        #[graphql(cache_control(max_age = 5))]
+        cur: T,
+        k: i64,
+    }
+
+    pub struct Go<T>(T);
+    #[Object(concrete(name = "GoInt", params(i64)), concrete(name = "GoSo", params(So)), cache_control(max_age = 25))]
+    impl<T: OutputType> Go<T> {
+        #[graphql(cache_control(max_age = 2))]
+        async fn val(&self) -> &T { &self.0 }
+        async fn n(&self) -> i64 { 6 }
+    }
+
+    pub struct P1;
+    #[Object(cache_control(max_age = 70))]
+    impl P1 {
+        #[graphql(cache_control(max_age = 30))]
+        async fn p1x(&self) -> i64 { 7 }
+        async fn p1oa(&self) -> Oa { Oa }
+    }
+    #[derive(SimpleObject)]
+    #[graphql(cache_control(max_age = 80))]
+    pub struct P2 {
+        #[graphql(cache_control(max_age = 6))]
+        p2y: i64,
+        p2n: i64,
+    }
+    #[derive(SimpleObject)]
+    #[graphql(cache_control(max_age = 60))]
+    pub struct P3 {
+        p3z: i64,
+    }
+    fn p2() -> P2 { P2 { p2y: 8, p2n: 9 } }
+
+    /// own hint `private`, parts max_age 70 and 80: an `Mo` object is private with max-age 70
+    #[derive(MergedObject)]
+    #[graphql(cache_control(private))]
+    pub struct Mo(P1, P2);
+    /// no hint of its own: the combination of its parts (max_age 80 and 60)
+    #[derive(MergedObject)]
+    pub struct Mp(P2, P3);
+    /// own max_age 10 below the parts' (70 and 60)
+    #[derive(MergedObject)]
+    #[graphql(cache_control(max_age = 10))]
+    pub struct Mq(P1, P3);
+
+    #[derive(Interface)]
+    #[graphql(field(name = "x", ty = "&i64"))]
+    pub enum Zi {
+        So(So),
+        Sc(Sc),
+    }
+    #[derive(Interface)]
+    #[graphql(field(name = "x", ty = "&i64"))]
+    pub enum Zj {
+        GsOa(Gs<Oa>),
+        GsInt(Gs<i64>),
+    }
+    #[derive(Union)]
+    pub enum Zu {
+        Oa(Oa),
+        Sc(Sc),
+        GoInt(Go<i64>),
+    }
+    #[derive(Union)]
+    pub enum Zv {
+        GsInt(Gs<i64>),
+        Mo(Mo),
+        LvInt(Lv<i64>),
+        GoSo(Go<So>),
+    }
+
+    pub struct Query;
+    #[Object(cache_control(max_age = 900))]
+    impl Query {
+        #[graphql(cache_control(max_age = 300))]
+        async fn oa(&self) -> Oa { Oa }
+        #[graphql(cache_control(private))]
+        async fn so(&self) -> Option<So> { Some(so()) }
+        async fn sc(&self) -> Sc { sc() }
+        async fn gsoa(&self) -> Gs<Oa> { Gs { item: Oa, x: 30 } }
+        #[graphql(cache_control(max_age = 33))]
+        async fn gsint(&self) -> Gs<i64> { Gs { item: 31, x: 32 } }
+        async fn lvint(&self) -> Lv<i64> { Lv { cur: 33, k: 34 } }
+        async fn lvso(&self) -> Option<Lv<So>> { Some(Lv { cur: so(), k: 35 }) }
+        async fn goint(&self) -> Go<i64> { Go(36) }
+        async fn goso(&self) -> Go<So> { Go(so()) }
+        async fn mo(&self) -> Mo { Mo(P1, p2()) }
+        async fn mp(&self) -> Mp { Mp(p2(), P3 { p3z: 37 }) }
+        async fn mq(&self) -> Option<Mq> { Some(Mq(P1, P3 { p3z: 38 })) }
+        #[graphql(cache_control(max_age = 100))]
+        async fn zi(&self) -> Zi { Zi::Sc(sc()) }
+        async fn zis(&self) -> Vec<Zi> { vec![Zi::Sc(sc()), Zi::So(so())] }
+        async fn zj(&self) -> Option<Zj> { Some(Zj::GsOa(Gs { item: Oa, x: 39 })) }
+        async fn zu(&self) -> Option<Zu> { Some(Zu::Sc(sc())) }
+        async fn zus(&self) -> Vec<Zu> { vec![Zu::GoInt(Go(42)), Zu::Oa(Oa)] }
+        async fn zv(&self) -> Vec<Zv> { vec![Zv::LvInt(Lv { cur: 40, k: 41 }), Zv::Mo(Mo(P1, p2())), Zv::GoSo(Go(so())), Zv::GsInt(Gs { item: 47, x: 48 })] }
+        async fn n(&self) -> i64 { 0 }
+    }
+
+    pub struct Mutation;
+    #[Object(cache_control(private, max_age = 15))]
+    impl Mutation {
+        async fn set(&self) -> Oa { Oa }
+        #[graphql(cache_control(no_cache))]
+        async fn bump(&self) -> i64 { 43 }
+        async fn mo(&self) -> Mo { Mo(P1, p2()) }
+        #[graphql(cache_control(max_age = 8))]
+        async fn zv(&self) -> Zv { Zv::GsInt(Gs { item: 44, x: 45 }) }
+        async fn n(&self) -> i64 { 46 }
+    }
+
+    const PUB: bool = true;
+    const PRIV: bool = false;
+    /// `no_cache` is stored as max_age -1
+    const NO_CACHE: i32 = -1;
+
+    /// THE DECLARED TABLE — hand-written from the attributes above: (type, field or "", public,
+    /// max_age).  Every object type is listed, then every field with a hint.  A merged object
+    /// carries the combination of its own hint and its parts' hints (its data is their data), and
+    /// its fields carry the hints of the parts' fields.
+    pub const DECLARED: &[HintRow] = &[
+        ("Query", "", PUB, 900),
+        ("Mutation", "", PRIV, 15),
+        ("Oa", "", PUB, 50),
+        ("So", "", PUB, 40),
+        ("Sc", "", PUB, 35),
+        ("GsOa", "", PRIV, 20),
+        ("GsInt", "", PRIV, 20),
+        ("LvInt", "", PUB, NO_CACHE),
+        ("LvSo", "", PUB, NO_CACHE),
+        ("GoInt", "", PUB, 25),
+        ("GoSo", "", PUB, 25),
+        ("Mo", "", PRIV, 70),
+        ("Mp", "", PUB, 60),
+        ("Mq", "", PUB, 10),
+        ("Query", "oa", PUB, 300),
+        ("Query", "so", PRIV, 0),
+        ("Query", "gsint", PUB, 33),
+        ("Query", "zi", PUB, 100),
+        ("Mutation", "bump", PUB, NO_CACHE),
+        ("Mutation", "zv", PUB, 8),
+        ("Oa", "x", PUB, 7),
+        ("Oa", "p", PRIV, 0),
+        ("Oa", "zus", PUB, 45),
+        ("So", "x", PUB, 12),
+        ("So", "live", PUB, NO_CACHE),
+        ("Sc", "x", PUB, 9),
+        ("Sc", "c", PRIV, 4),
+        ("Sc", "zi", PUB, 3),
+        ("GsOa", "item", PUB, 5),
+        ("GsInt", "item", PUB, 5),
+        ("LvInt", "cur", PUB, 5),
+        ("LvSo", "cur", PUB, 5),
+        ("GoInt", "val", PUB, 2),
+        ("GoSo", "val", PUB, 2),
+        ("Mo", "p1x", PUB, 30),
+        ("Mo", "p2y", PUB, 6),
+        ("Mp", "p2y", PUB, 6),
+        ("Mq", "p1x", PUB, 30),
+    ];
+    /// merged objects with a hint of their own: the combination of their parts' hints alone
+    pub const PARTS_ONLY: &[(&str, bool, i32)] = &[("Mo", PUB, 70), ("Mq", PUB, 60)];
+
+    pub struct V(pub Schema<Query, Mutation, EmptySubscription>);
+    pub fn build() -> V {
+        V(Schema::build(Query, Mutation, EmptySubscription).finish())
+    }
+    impl Variant for V {
+        fn sdl(&self) -> String { self.0.sdl() }
+        fn hints(&self) -> Vec<HintRow> { DECLARED.to_vec() }
+        fn parts_only(&self) -> Vec<(&'static str, bool, i32)> { PARTS_ONLY.to_vec() }
+        fn registered(&self) -> Vec<(String, String, bool, i32)> { registry_hints::<Query, Mutation>() }
+        fn exec(&self, b: BatchRequest) -> BatchResponse { spin_on(self.0.execute_batch(b)) }
+        fn exec_stream(&self, r: async_graphql::Request) -> Option<async_graphql::Response> {
+            let mut s = self.0.execute_stream(r);
+            spin_on(s.next())
+        }
+    }
+}
+
+const TAGS: [&str; 5] = ["v0", "v1", "v2", "v3", "zoo"];
 
 fn variant(tag: &str) -> Box<dyn Variant> {
     match tag {
@@ -170,21 +477,21 @@ fn variant(tag: &str) -> Box<dyn Variant> {
         "v1" => Box::new(v1::build()),
         "v2" => Box::new(v2::build()),
         "v3" => Box::new(v3::build()),
+        "zoo" => Box::new(zoo::build()),
         t => panic!("unknown schema variant {t}"),
     }
 }
 
-fn hints_sexp(h: &[HintRow]) -> Sexp {
-    list(
-        h.iter()
-            .map(|(t, f, p, m)| {
-                node(
-                    "hint",
-                    vec![st(*t), if f.is_empty() { atom("none") } else { st(*f) }, atom(if *p { "true" } else { "false" }), num(*m)],
-                )
-            })
-            .collect(),
-    )
+fn hint_sexp(t: &str, f: &str, p: bool, m: i32) -> Sexp {
+    node("hint", vec![st(t), if f.is_empty() { atom("none") } else { st(f) }, atom(if p { "true" } else { "false" }), num(m)])
+}
+
+fn hints_sexp(h: &[HintRow], parts: &[(&'static str, bool, i32)]) -> Sexp {
+    let mut xs: Vec<Sexp> = h.iter().map(|(t, f, p, m)| hint_sexp(t, f, *p, *m)).collect();
+    for (t, p, m) in parts {
+        xs.push(node("partsonly", vec![st(*t), atom(if *p { "true" } else { "false" }), num(*m)]));
+    }
+    list(xs)
 }
 
 fn rename_spreads(ss: &mut [SelN], pre: &str) {
@@ -198,11 +505,28 @@ fn rename_spreads(ss: &mut [SelN], pre: &str) {
 }
 
 fn gen_req(sd: &SchemaD, rng: &mut Rng, dist: &mut Dist) -> Sexp {
-    let (mut doc, vars): (DocN, Vec<(String, GV)>) = gen_request(sd, rng, dist, "query", true);
+    // a schema with a mutation root: one request in five is a mutation
+    fn op_ty(sd: &SchemaD, rng: &mut Rng, dist: &mut Dist) -> &'static str {
+        if sd.mutation.is_some() && rng.chance(1, 5) {
+            dist.hit("op_mutation");
+            "mutation"
+        } else {
+            "query"
+        }
+    }
+    // small requests too: private and no-cache are absorbing, large selections all end there
+    fn size(rng: &mut Rng) -> (usize, usize) {
+        *rng.pick(&[(2, 1), (4, 2), (7, 2), (14, 3)])
+    }
+    let ty1 = op_ty(sd, rng, dist);
+    let (budget, depth) = size(rng);
+    let (mut doc, vars): (DocN, Vec<(String, GV)>) = gen_request_b(sd, rng, dist, ty1, true, budget, depth);
     let mut opname = doc.ops[0].name.clone();
     if rng.chance(1, 6) {
         // a second operation in the same document (never executed, but the validator walks it)
-        let (mut d2, _) = gen_request(sd, rng, dist, "query", true);
+        let ty2 = op_ty(sd, rng, dist);
+        let (budget, depth) = size(rng);
+        let (mut d2, _) = gen_request_b(sd, rng, dist, ty2, true, budget, depth);
         rename_spreads(&mut d2.ops[0].sels, "G");
         for f in &mut d2.frags {
             rename_spreads(&mut f.sels, "G");
@@ -234,6 +558,8 @@ fn frag(name: &str, cond: &str, sels: Vec<SelN>) -> family::FragN {
 
 /// hand-written cases that open every stream: (variant, requests as (selections, fragments))
 fn fixed() -> Vec<(&'static str, Vec<(Vec<SelN>, Vec<family::FragN>)>)> {
+    let f0 = |n: &str| fld(n, vec![]);
+    let q = |sels: Vec<SelN>| vec![(sels, vec![])];
     vec![
         // a private object (A) and a short-lived one (B) behind an interface-typed field
         ("v0", vec![(vec![fld("i", vec![fld("x", vec![])])], vec![])]),
@@ -259,29 +585,71 @@ fn fixed() -> Vec<(&'static str, Vec<(Vec<SelN>, Vec<family::FragN>)>)> {
             ],
         ),
         ("v0", vec![(vec![fld("b", vec![fld("z", vec![])])], vec![]), (vec![fld("c", vec![fld("w", vec![])])], vec![])]),
+        // ---- the declaration zoo, one declaration form per case (all selections on object types:
+        //      the policy must be exactly the combination of the DECLARED hints)
+        // concrete instantiations of a generic SimpleObject (object-level hint private, 20)
+        ("zoo", q(vec![fld("gsoa", vec![f0("x")])])),
+        ("zoo", q(vec![fld("gsint", vec![f0("item")])])),
+        ("zoo", q(vec![fld("gsoa", vec![fld("item", vec![f0("n")])])])),
+        // ... and of a no_cache one
+        ("zoo", q(vec![fld("lvint", vec![f0("k")])])),
+        ("zoo", q(vec![fld("lvso", vec![fld("cur", vec![f0("y")])])])),
+        // concrete instantiations of a generic #[Object]
+        ("zoo", q(vec![fld("goint", vec![f0("n")]), fld("goso", vec![fld("val", vec![f0("x")])])])),
+        // SimpleObject + ComplexObject: a hint on each half
+        ("zoo", q(vec![fld("sc", vec![f0("w")])])),
+        ("zoo", q(vec![fld("sc", vec![f0("x"), f0("c")])])),
+        // merged objects: own hint private / none / a max_age below the parts'
+        ("zoo", q(vec![fld("mo", vec![f0("p2n")])])),
+        ("zoo", q(vec![fld("mp", vec![f0("p2y")])])),
+        ("zoo", q(vec![fld("mq", vec![f0("p1x")])])),
+        // derived interface / union over those types
+        ("zoo", q(vec![fld("zi", vec![f0("x")])])),
+        ("zoo", q(vec![fld("zus", vec![inline(Some("GoInt"), vec![f0("val")]), inline(Some("Oa"), vec![f0("p")])])])),
+        ("zoo", q(vec![fld("zv", vec![inline(Some("GsInt"), vec![f0("item")]), inline(Some("Mo"), vec![f0("p1x")])])])),
+        ("zoo", q(vec![fld("zj", vec![f0("x"), inline(Some("GsOa"), vec![fld("item", vec![f0("x")])])])])),
+        ("zoo", q(vec![fld("so", vec![f0("live")]), f0("n")])),
+        // a batch over the zoo
+        ("zoo", vec![(vec![f0("n")], vec![]), (vec![fld("goint", vec![f0("val")])], vec![]), (vec![fld("mp", vec![f0("p3z")])], vec![])]),
+    ]
+}
+
+/// hand-written mutation cases of the zoo (hints on the mutation root and its fields)
+fn fixed_mutations() -> Vec<Vec<SelN>> {
+    vec![
+        vec![fld("n", vec![])],
+        vec![fld("bump", vec![])],
+        vec![fld("set", vec![fld("x", vec![])]), fld("mo", vec![fld("p2y", vec![])])],
+        vec![fld("zv", vec![inline(Some("GsInt"), vec![fld("x", vec![])]), fld("__typename", vec![])])],
     ]
 }
 
 fn gen_case(rng: &mut Rng, i: usize, _o: &Opts, dist: &mut Dist) -> Sexp {
     thread_local! {
-        static SDS: Vec<(SchemaD, Vec<HintRow>)> = TAGS.iter().map(|t| { let v = variant(t); (SchemaD::from_sdl(&v.sdl()), v.hints()) }).collect();
+        static SDS: Vec<(SchemaD, Sexp)> = TAGS.iter().map(|t| { let v = variant(t); (SchemaD::from_sdl(&v.sdl()), hints_sexp(&v.hints(), &v.parts_only())) }).collect();
     }
     SDS.with(|sds| {
         let fx = fixed();
-        if i < fx.len() {
-            let (tag, reqs) = &fx[i];
-            let k = TAGS.iter().position(|t| t == tag).unwrap();
+        let fm = fixed_mutations();
+        if i < fx.len() + fm.len() {
+            let (tag, reqs): (&str, Vec<(&str, Vec<SelN>, Vec<family::FragN>)>) = if i < fx.len() {
+                (fx[i].0, fx[i].1.iter().map(|(s, f)| ("query", s.clone(), f.clone())).collect())
+            } else {
+                ("zoo", vec![("mutation", fm[i - fx.len()].clone(), vec![])])
+            };
+            let k = TAGS.iter().position(|t| *t == tag).unwrap();
             let (sd, hints) = &sds[k];
             dist.hit("fixed_case");
-            let mut xs = vec![st(*tag), sd.to_sexp(), hints_sexp(hints)];
-            for (sels, frags) in reqs {
-                let mut doc = DocN { ops: vec![family::OpN { ty: "query".into(), name: None, vars: vec![], sels: sels.clone() }], frags: frags.clone() };
+            let mut xs = vec![st(tag), sd.to_sexp(), hints.clone()];
+            for (ty, sels, frags) in reqs {
+                let mut doc = DocN { ops: vec![family::OpN { ty: ty.into(), name: None, vars: vec![], sels }], frags };
                 let text = print_doc(&mut doc);
                 xs.push(node("req", vec![doc.to_sexp(), atom("none"), vars_sexp(&[]), st(text)]));
             }
             return node("case", xs);
         }
-        let k = rng.below(TAGS.len());
+        // the zoo gets half of the cases, v0..v3 share the rest
+        let k = if rng.chance(1, 2) { TAGS.len() - 1 } else { rng.below(TAGS.len() - 1) };
         let (sd, hints) = &sds[k];
         dist.hit(&format!("schema_{}", TAGS[k]));
         let nreq = match rng.below(10) {
@@ -290,7 +658,7 @@ fn gen_case(rng: &mut Rng, i: usize, _o: &Opts, dist: &mut Dist) -> Sexp {
             _ => 1,
         };
         dist.hit(&format!("batch_{nreq}"));
-        let mut xs = vec![st(TAGS[k]), sd.to_sexp(), hints_sexp(hints)];
+        let mut xs = vec![st(TAGS[k]), sd.to_sexp(), hints.clone()];
         for _ in 0..nreq {
             xs.push(gen_req(sd, rng, dist));
         }
@@ -322,6 +690,11 @@ fn run(case: &Sexp, dist: &mut Dist) -> Sexp {
         }
         reqs.push(req.variables(vs));
     }
+    let first = reqs.first().map(|r| {
+        let mut q = async_graphql::Request::new(r.query.clone()).variables(r.variables.clone());
+        q.operation_name = r.operation_name.clone();
+        q
+    });
     let batch = if reqs.len() == 1 { BatchRequest::Single(reqs.pop().unwrap()) } else { BatchRequest::Batch(reqs) };
     let resp = v.exec(batch);
     let total = resp.cache_control();
@@ -348,6 +721,37 @@ fn run(case: &Sexp, dist: &mut Dist) -> Sexp {
         }
     }
     out.push(cc_sexp("batch", &total));
+    // the same policy must come out of the streaming entry point (first request of the case)
+    match first.and_then(|r| v.exec_stream(r)) {
+        Some(r) if r.errors.is_empty() => out.push(cc_sexp("stream", &r.cache_control)),
+        _ => out.push(node("rejected", vec![])),
+    }
+    // what the derive macros registered, in the order of the declared table (unknown entries last)
+    let declared: Vec<(String, String)> = a[2]
+        .as_list()
+        .unwrap_or(&[])
+        .iter()
+        .filter(|h| h.tag() == Some("hint"))
+        .map(|h| {
+            let ha = h.args();
+            (ha[0].as_str().unwrap_or("").to_string(), ha[1].as_str().unwrap_or("").to_string())
+        })
+        .collect();
+    // `create_type_info` also leaves the parts of merged objects in a bare registry (the schema
+    // builder drops them as unused): keep the types of the schema (= of its SDL export)
+    let in_schema: Vec<&str> = a[1].args().get(3).and_then(|t| t.as_list()).unwrap_or(&[]).iter().filter_map(|t| t.args().first()?.as_str()).collect();
+    let mut reg = v.registered();
+    reg.retain(|(t, _, _, _)| in_schema.contains(&t.as_str()));
+    reg.sort_by_key(|(t, f, _, _)| (declared.iter().position(|(dt, df)| dt == t && df == f).unwrap_or(usize::MAX), t.clone(), f.clone()));
+    for (t, f, p, m) in &reg {
+        if declared.iter().any(|(dt, df)| dt == t && df == f) {
+            dist.hit("registered_hint_declared");
+        } else {
+            dist.hit("registered_hint_undeclared");
+        }
+        let _ = (p, m);
+    }
+    out.push(node("reg", reg.iter().map(|(t, f, p, m)| hint_sexp(t, f, *p, *m)).collect()));
     node("out", out)
 }
 
